@@ -21,7 +21,7 @@ func checkFile(t *testing.T, prop string, gen func(rt *rapid.T) *harness.Program
 	defer func() { rec.Flush(completed) }()
 	rapid.Check(t, func(rt *rapid.T) {
 		p := gen(rt)
-		res := run(p)
+		res := Guard(func() Result { return run(p) })
 		if res.V != nil {
 			if id := matchKnown(prop, res.V); id != "" {
 				rec.Exclude("matched:" + id)
